@@ -30,6 +30,9 @@ ASSUMPTIONS = [
     "the `nil;` statement compiles to Nil;Pop and nothing else in the generated programs does (marker detection)",
 ]
 
+CASE_TIMEOUT_MS = 4000     # a generated program runs for milliseconds; an endless loop in a mutant costs this much
+TRACE_LIMIT = 60000        # trace records kept per program (generated programs stay below ~15000)
+EARLY_STOP = 12            # violations in the first batch after which the rest of the run is skipped
 PROFILE = ["release"]   # quick: release build; thorough: debug build (collects at every allocation)
 
 # ------------------------------------------------------------------------------------------
@@ -78,6 +81,8 @@ def w_fn(f):
         return [1, Z(f[1])]
     if k == "const":
         return [3, Z(f[1])]
+    if k == "press":
+        return [4, Z(f[1]), f[2]]
     return [2] + w_bytes(f[1].encode("utf-8"))
 
 
@@ -116,6 +121,8 @@ def w_iexp(e):
         return [8, e[1]]
     if k == "obj":
         return [11, e[1]]
+    if k == "rvar":
+        return [12, e[1], e[2]]
     if k == "map":
         return [9] + w_fn(e[1]) + w_iexp(e[2])
     if k == "filter":
@@ -162,6 +169,10 @@ def w_stmt(s):
         return [13, 0 if s[1] == "sum" else 1] + w_value(s[2]) + w_iexp(s[3])
     if k == "obj":
         return [14, s[1], OKINDS.index(s[2])] + w_vlist(s[3]) + [Z(s[4])]
+    if k == "range":
+        return [15, s[1], s[2], Z(s[3]), Z(s[4])]
+    if k == "press":
+        return [16, Z(s[1]), s[2]]
     raise ValueError(s)
 
 
@@ -231,6 +242,8 @@ def base_len(e, vecs):
         return vecs.get(e[1], 0)
     if k == "obj":
         return vecs.get(("obj", e[1]), 0)
+    if k == "rvar":
+        return vecs.get(("rvar", e[1]), 0)
     return 2  # slot: whatever it was bound to
 
 
@@ -251,6 +264,8 @@ def facts(body):
             vecs[s[1]] = max(vecs.get(s[1], 0), len(s[2]))
         if s[0] == "obj":
             vecs[("obj", s[1])] = max(vecs.get(("obj", s[1]), 0), len(s[3]))
+        if s[0] == "range":
+            vecs[("rvar", s[1])] = max(vecs.get(("rvar", s[1]), 0), abs(s[3] - s[4]))
     es = list(iexps(body))
     return {
         "chain": max([chain_depth(e) for e in es] or [0]),
@@ -488,6 +503,58 @@ def object_programs(rng, quick):
     return progs
 
 
+PRESS_COUNTS = [0, 7, 8, 9, 20]     # other distinct ranges built (RANGE_CACHE_SIZE is 8)
+
+
+def pressure_programs(rng, quick):
+    """a range in use (held in a variable / vec / field, passed through a function, or being walked by a loop) while
+    0, 7, 8, 9, 20 OTHER distinct ranges are built (a) before it is consumed, (b) between two steps of its iteration
+    (loop body, mapping function, between manual next() calls), (c) in a nested loop; equal ranges built again
+    (cache hit).  S: a range value is immutable - its elements depend only on its bounds."""
+    progs = []
+    bounds = [(0, 3), (3, 0), (-2, 2), (5, 5), (1, 2)]
+    names = list(consumers(rng).keys())
+    for k in PRESS_COUNTS * (1 if quick else 4):
+        for place in ["before", "body", "body_once", "mapfn", "next", "nested", "hit", "later"]:
+            for h in [0, 1, 2, 3, "lit"]:
+                if quick and rng.random() < (0.55 if k in (8, 9) else 0.8):
+                    continue
+                a, e = rng.choice(bounds if not quick else bounds[:3])
+                decl = [("range", 0, h, a, e)] if h != "lit" else []
+                E = ("rvar", 0, h) if h != "lit" else ("range", a, e)
+                cs = consumers(rng)
+                c1, c2 = rng.choice(names), rng.choice(names)
+                if place == "before":
+                    body = decl + [("press", 100, k)] + cs[c1](E) + [("press", 400, k)] + cs[c2](E)
+                elif place == "body":
+                    body = decl + [("for", E, [("pvar", 0), ("press", 100, k), ("pvar", 0)])] + cs[c2](E)
+                elif place == "body_once":
+                    body = decl + [("for", g_chain(rng, E, depth=rng.choice([0, 0, 1])),
+                                    [("if", 0, rng.choice([1, 2]), [("press", 100, k)]), ("pvar", 0)])] + cs[c2](E)
+                elif place == "mapfn":
+                    f = ("press", 100, k)
+                    body = decl + [("collect", ("map", f, E)),
+                                   ("for", ("filter", g_pr(rng), ("map", f, E)), [("pvar", 0)]),
+                                   ("reduce", "sum", 0, ("map", g_fn(rng), ("map", f, E)))] + cs[c2](E)
+                elif place == "next":
+                    body = decl + [("let", 0, E), ("next", 0), ("press", 100, k), ("next", 0), ("press", 100, k), ("next", 0),
+                                   ("for", ("slot", 0), [("pvar", 0)]), ("next", 0)] + cs[c2](E)
+                elif place == "nested":
+                    body = decl + [("for", E, [("pvar", 0), ("for", ("range", 200, 202), [("press", 300, k), ("pvar", 1)]),
+                                               ("for", E, [("pvar", 1), ("if", 1, 1, [("press", 600, k)])])])] + cs[c2](E)
+                elif place == "hit":
+                    # the same bounds built again (cache hit while it is cached, a miss once it was evicted)
+                    h2 = rng.choice([0, 1, 2, 3])
+                    body = decl + [("press", 100, k), ("range", 1, h2, a, e), ("press", 100, k)] + cs[c1](E) + \
+                        cs[c2](("rvar", 1, h2)) + [("collect", ("range", a, e))] + cs[c1](E)
+                else:
+                    # stored first, iterated much later, twice
+                    body = decl + [("press", 100, k), ("press", 500, k)] + cs[c1](E) + [("press", 700, k)] + cs[c1](E)
+                progs.append({"fun": rng.random() < 0.5, "loc": rng.random() < 0.3, "body": body, "stream": "range_pressure",
+                              "pressure": (k, place, h)})
+    return progs
+
+
 def kinds_sizes(rng):
     """every iterable kind x {empty, one, many, multi-byte}"""
     out = []
@@ -583,7 +650,7 @@ def directed(rng, quick):
             progs.append({"fun": True, "loc": True, "body": body, "stream": "locals"})
             if ctl != "return":
                 progs.append({"fun": False, "loc": True, "body": body, "stream": "locals"})
-    return progs + object_programs(rng, quick)
+    return progs + object_programs(rng, quick) + pressure_programs(rng, quick)
 
 
 # ------------------------------------------------------------------------------------------
@@ -637,7 +704,7 @@ def evaluate(ctx, progs, tag):
         p["early"] = int(early)
     ok = [p for p in progs if not p.get("bad")]
     binary = ctx.harness(PROFILE[0])
-    recs = yvlib.run_harness(binary, ["trace - 400000 " + hx(p["src"]) for p in ok], case_timeout_ms=20000)
+    recs = yvlib.run_harness(binary, ["trace - %d " % TRACE_LIMIT + hx(p["src"]) for p in ok], case_timeout_ms=CASE_TIMEOUT_MS)
     nil, pop = opcode_numbers()
     for p, r in zip(ok, recs):
         p["impl"] = r.output
@@ -836,9 +903,21 @@ def run(ctx):
         p.setdefault("dir", rng.random() < 0.5)
         p["facts"] = facts(p["body"])
     check_consumer_table(ctx, progs)
-    done = evaluate(ctx, progs, "main")
+    # a first batch across all streams: if the implementation already fails broadly there (a mutant that makes
+    # loops endless costs CASE_TIMEOUT_MS per program) the rest of the run adds nothing but time
+    first = progs[::7]
+    rest = [p for i, p in enumerate(progs) if i % 7]
+    done = evaluate(ctx, first, "first")
     for p in done:
         judge(ctx, p, stats)
+    if len(ctx.violations) >= EARLY_STOP:
+        ctx.notes.append("stopped after the first batch (%d of %d programs): %d violations already" % (
+            len(first), len(progs), len(ctx.violations)))
+    else:
+        more = evaluate(ctx, rest, "main")
+        for p in more:
+            judge(ctx, p, stats)
+        done = done + more
     # shrink the first unknown violation (bounded), keep the report short
     fresh = [v for v in ctx.violations if not v.get("known_class")]
     if fresh:
@@ -877,7 +956,7 @@ def run(ctx):
     }
     if stats["model_fuel"]:
         ctx.notes.append("%d programs ran out of model fuel (skipped)" % stats["model_fuel"])
-    refstats = reference_compare(ctx, done if not quick else done[::2])
+    refstats = reference_compare(ctx, done if not quick else done[::2]) if not ctx.violations else {"compared": 0, "skipped": "violations found"}
     sample = next((p for p in done if nontrivial(p)), done[0])
     ctx.cov.update({
         "evaluations": len(done),
